@@ -89,6 +89,33 @@ class C14(Property):
                 s.add("B.1.%d.%d" % (x, y), "B.1.%d.%d" % (y, x))
             s.add("S.1")
             out.append(s.line())
+        # port forwarding: node 1 is reachable (and seen by everybody) under a public address it does not know; peers list
+        # that address under node 1's identity; node 1 must adopt it and stop dialling it - also while a dial of that very
+        # address is in flight (it is in node 1's own reconnect list and the router does not hair-pin)
+        for _ in range(40 if thorough else 10):
+            s = nu.Scenario()
+            pub = rng.choice([50, 60])
+            n = rng.choice([2, 3])
+            for i in range(1, n + 1):
+                s.node(i, mode="tun-router", claims=["%s/24" % bytes([10, 0, i, 0]).hex()])
+            s.add("K.1.%d" % pub)
+            selfdial = rng.random() < 0.7
+            if selfdial:
+                s.add("R.1.%d" % pub, "C.1.%d" % pub)
+            if rng.random() < 0.5:
+                s.add("C.1.2")
+            else:
+                s.add("C.2.%d" % pub)
+            if n == 3:
+                s.add("C.3.2")
+            s.add("A")
+            s.tick(rng.choice([200, 230, 420]))   # windows that avoid the 300 s own-address reset
+            s.add("S.1")
+            for _ in range(30):
+                s.t += 1
+                s.add("T.%d" % s.t, "H.1", "A")
+            s.add("S.1")
+            out.append(s.line())
         return out
 
     def model_line(self, line, impl_out):
@@ -119,6 +146,23 @@ class C14(Property):
                 if p[1] == str(me):
                     return "node %d has itself as a peer (via address %s)" % (me, p[0])
         if " B.1." in line:
+            return None
+        if " K.1." in line:
+            pub = [t for t in ops if t.startswith("K.1.")][0].split(".")[2]
+            d1 = [nu.parse_dump(r) for o, r in zip(ops, outs) if o == "S.1"]
+            own = d1[0]["own"][1:-1].split(",")
+            if pub not in own:
+                return "address %s, listed by its peers under node 1's own identity for two announcement rounds, was not adopted (own addresses %s)" % (pub, own)
+            # re-sends of an attempt that was already in flight when the address was adopted do not count; a NEW attempt
+            # (new handshake object = new salt) to an adopted address does
+            first = ops.index("S.1")
+            seen = set()
+            for idx, (o, r) in enumerate(zip(ops, outs)):
+                for d, k in nu.emissions(re.sub(r"n\d+>", "", r)) if not r.startswith("a") else []:
+                    if str(d) == pub and k.startswith("I1."):
+                        if idx > first and k not in seen:
+                            return "node 1 starts a new handshake with its own public address %s after adopting it" % pub
+                        seen.add(k)
             return None
         for me, d in dumps.items():
             have = set(int(p[0]) for p in d["peers_l"])
